@@ -142,6 +142,10 @@ def run(command, timeout=30, withexitstatus=False, events=None,
                                 "a string, method, or function: {value!r}"
                                 .format(index=index, value=responses[index]))
             event_count = event_count + 1
+            if child.after is EOF:
+                # Nothing more can arrive: expect() would report EOF again
+                # at once, for ever.
+                break
         except TIMEOUT:
             child_result_list.append(child.before)
             break
